@@ -248,6 +248,12 @@ def program_case(ctx):
             o = "c2" if c == "c1" else "c1"
             op, t = "update", c
             queue.extend([("update", o), ("commit-local", c), ("commit", o), ("commit", c)])
+        elif rng.random() < 0.05:
+            # macro: a commit and a tag made through one checkout, then the sibling pulls from it (new revisions arrive and tags are merged
+            # to the sibling and to its master)
+            c = rng.choice(CHECKOUTS)
+            op, t = "update", c
+            queue.extend([("commit", c), ("tag", c), ("pull-sibling", "c2" if c == "c1" else "c1")])
         lagging = [c for c in CHECKOUTS if mdl.bound[c] and mdl.rel(c) in ("ahead", "diverged")]
         if lagging and not queue and rng.random() < 0.3:
             op, t = "update", rng.choice(lagging)  # local commits waiting to become pending merges
